@@ -89,6 +89,11 @@ func c12NestedShort(fset *token.FileSet, stmts []ast.Stmt) []string {
 					walk(cc.Body, depth+"    ")
 				}
 			default:
+				if es, ok := st.(*ast.ExprStmt); ok {
+					if ce, ok := es.X.(*ast.CallExpr); ok && exprName(ce.Fun) == "verifhook.Yield" {
+						continue // verification yield points are not statements of the code
+					}
+				}
 				out = append(out, depth+c12SrcShort(fset, st))
 			}
 		}
